@@ -7,3 +7,15 @@ pub assume_specification<T, F: FnOnce(T) -> bool>[ Option::<T>::is_some_and ](o:
     requires o matches Some(v) ==> f.requires((v,)),
     ensures b ==> (o matches Some(v) && f.ensures((v,), true)),
         !b ==> (o is None || (o matches Some(v) && f.ensures((v,), false)));
+pub assume_specification<T, E, U, F: FnOnce(T) -> Result<U, E>>[ Result::<T, E>::and_then ](r: Result<T, E>, f: F) -> (o: Result<U, E>)
+    requires r matches Ok(v) ==> f.requires((v,)),
+    ensures match r { Ok(v) => f.ensures((v,), o), Err(e) => o == Err::<U, E>(e) };
+pub assume_specification<T, E>[ Result::<T, E>::unwrap_or ](r: Result<T, E>, d: T) -> (o: T)
+    ensures o == (match r { Ok(v) => v, Err(_) => d });
+// R26: `String::from(x)` -> `string_from(x)` (vstd gives `From<&str> for String` no specification and its signature cannot be matched)
+pub trait StrLike: Sized { spec fn sv(&self) -> Seq<char>; }
+impl<'a> StrLike for &'a str { open spec fn sv(&self) -> Seq<char> { self@ } }
+impl StrLike for String { open spec fn sv(&self) -> Seq<char> { self@ } }
+impl<'a> StrLike for &'a String { open spec fn sv(&self) -> Seq<char> { self@ } }
+#[verifier::external_body]
+pub fn string_from<T: StrLike>(t: T) -> (r: String) ensures r@ == t.sv() { unimplemented!() }
